@@ -1,4 +1,5 @@
 import ShroudVerif.Model.Helpers
+import ShroudVerif.Model.FModule
 import Driver.Codec
 /-!
 Line protocol for the C05 engine.
@@ -80,6 +81,18 @@ def handleSkel : List String → String
       else if which == "iu" then encLines (writeImplUtilitySk s h)
       else "bad-op"
     | none => "bad-op"
+  | _ => "bad-op"
+
+/-- `fmod <imp> <self> <upd>...`; upd = `d=<graph>` (update_f_module) or `l=<graph>` (update_f_module_line);
+    -> `m=*|m=s,s|... # imports` -/
+def handleFmod : List String → String
+  | imp :: self :: upds =>
+    let us : List Shroud.FModule.Upd := upds.map fun u =>
+      if u.startsWith "d=" then .dict (decGraph (u.drop 2).toString) else .line (decGraph (u.drop 2).toString)
+    let st := Shroud.FModule.runUpds imp.toNat! ⟨[], []⟩ us
+    let r := Shroud.FModule.sortModuleInfo st self.toNat!
+    let lines := r.1.map fun e => toString e.1 ++ "=" ++ (match e.2 with | none => "*" | some ss => encNats ss)
+    (if lines.isEmpty then "~" else "|".intercalate lines) ++ " # " ++ encNats (Shroud.Helpers.sortNat r.2)
   | _ => "bad-op"
 
 end Driver
